@@ -7,6 +7,7 @@ import (
 	"flag"
 	"fmt"
 	"os"
+	"runtime"
 	"sort"
 	"strings"
 
@@ -381,6 +382,55 @@ func dedupQs(qs [][]string) [][]string {
 	return out
 }
 
+// genReadd: a lagging subscriber (its sender is released only when nothing else can move)
+// while a writer updates, deletes and re-creates the same few paths over and over: the
+// handles of leaves that no longer exist are still queued when the path comes back.
+func genReadd(r *vh.Rand) *Case {
+	cs := &Case{Mode: "S", ED: false, NW: 1, Seed: r.U64() % 1000000}
+	t := targets[0]
+	leaves := [][]string{{"b"}, {"a", "x"}}
+	ts := int64(1)
+	for _, l := range leaves[:1+r.Intn(2)] {
+		cs.Ops = append(cs.Ops, Op{W: -1, K: "upd", P: append([]string{t}, l...), V: 1, TS: ts})
+	}
+	for i, n := 0, 2+r.Intn(3); i < n; i++ {
+		l := append([]string{t}, leaves[r.Intn(len(leaves))]...)
+		ts++
+		cs.Ops = append(cs.Ops, Op{W: 0, K: "upd", P: l, V: int64(2 + i), TS: ts})
+		ts++
+		if r.Chance(1, 4) {
+			cs.Ops = append(cs.Ops, Op{W: 0, K: "reset", P: []string{t}})
+		} else {
+			cs.Ops = append(cs.Ops, Op{W: 0, K: "del", P: l, TS: ts})
+		}
+		ts++
+		cs.Ops = append(cs.Ops, Op{W: 0, K: "upd", P: l, V: int64(20 + i), TS: ts})
+	}
+	cs.Subs = []SubCfg{{Qs: [][]string{{t}}}}
+	if r.Chance(1, 2) {
+		cs.Subs = append(cs.Subs, SubCfg{Qs: [][]string{{t, "b"}}, UO: r.Chance(1, 2)})
+	}
+	return cs
+}
+
+// laggingDecide releases subscribers and walkers first, then writers, senders last; one
+// choice in five is random.
+func laggingDecide(r *vh.Rand) func(ready []string, k int) int {
+	rank := map[byte]int{'s': 0, 'k': 1, 'w': 2, 'x': 3}
+	return func(ready []string, k int) int {
+		if r.Chance(1, 5) {
+			return r.Intn(len(ready))
+		}
+		best := 0
+		for i, n := range ready {
+			if rank[n[0]] < rank[ready[best][0]] {
+				best = i
+			}
+		}
+		return best
+	}
+}
+
 // genWalkLock: pre-populated leaves, single-path subscriptions, writers that only delete:
 // released while a walk is parked inside an insertion, a delete must wait for the walk.
 func genWalkLock(r *vh.Rand) *Case {
@@ -607,6 +657,20 @@ func main() {
 		cs.Family = "S-random-shared-target"
 		e.execute(cs, randomDecide(rr))
 	}
+	nRA := 60
+	if o.Thorough() {
+		nRA = 1500
+	}
+	// one processor: a node a delete has just unlinked is the one the next add would get
+	// from a per-processor free list, if the tree recycled nodes
+	prevProcs := runtime.GOMAXPROCS(1)
+	for i := 0; i < nRA && e.bad < 3; i++ {
+		rr := r.Fork()
+		cs := genReadd(rr)
+		cs.Family = "S-readd-lagging"
+		e.execute(cs, laggingDecide(rr))
+	}
+	runtime.GOMAXPROCS(prevProcs)
 	nWL := 250
 	if o.Thorough() {
 		nWL = 6000
